@@ -206,6 +206,9 @@ pub struct St {
     pub extra_commits: u64,
     pub segments_with_header_and_data_pending: u64,
     pub max_pending: u64,
+    pub growth_commits: u64,
+    pub multi_page_freelist_commits: u64,
+    pub directed: u64,
     pub distinct: std::collections::BTreeSet<u64>,
     pub shapes: std::collections::BTreeSet<String>,
 }
@@ -397,6 +400,12 @@ fn analyse(
                     let ok = it.next() == Some("ok");
                     if ok && !commit_writes.is_empty() {
                         st.commits += 1;
+                        if commit_writes.iter().any(|w| w.size_after as usize > cache_at_commit_start.len()) {
+                            st.growth_commits += 1;
+                        }
+                        if commit_writes.iter().any(|w| w.data.len() > ps && w.data.get(8) == Some(&4)) {
+                            st.multi_page_freelist_commits += 1;
+                        }
                         let prev = &states[acked];
                         let new = &states[k + 1];
                         // ---- A. process kill: every prefix of the write sequence
@@ -583,6 +592,9 @@ pub fn run(ctx: &Ctx) -> Shard {
             continue;
         }
         let h = &wl.history;
+        if h.origin == "directed" || wl.label.starts_with("multi-page free list") {
+            st.directed += 1;
+        }
         let path = scratch.fresh("rec");
         let log = scratch.path("iolog.bin");
         let _ = std::fs::remove_file(&log);
@@ -660,6 +672,9 @@ pub fn run(ctx: &Ctx) -> Shard {
     shard.count("sync_segments_with_header_and_data_both_pending", st.segments_with_header_and_data_pending);
     shard.count("max_pending_writes_at_a_sync", 0);
     shard.count("max_pending", st.max_pending);
+    shard.count("directed_workloads", st.directed);
+    shard.count("commits_that_extended_the_file", st.growth_commits);
+    shard.count("commits_with_a_multi_page_free_list", st.multi_page_freelist_commits);
     for s in &st.shapes {
         shard.set("commit_write_set_shapes", s.clone());
     }
